@@ -288,7 +288,15 @@ func (sfs *worktreeFilesystem) validWritePath(paths ...string) error {
 // in unlink_entry (entry.c).
 func (sfs *worktreeFilesystem) validNoLeadingSymlink(paths ...string) error {
 	for _, p := range paths {
+		var dirs []string
 		for dir := filepath.Dir(p); dir != "." && dir != "" && dir != string(filepath.Separator); dir = filepath.Dir(dir) {
+			dirs = append(dirs, dir)
+		}
+		// Shallowest-first: a deeper ancestor must not be Lstat'ed before
+		// the components above it are known to be real directories,
+		// otherwise that Lstat itself is resolved through a planted link.
+		for i := len(dirs) - 1; i >= 0; i-- {
+			dir := dirs[i]
 			fi, err := sfs.Filesystem.Lstat(dir)
 			if err != nil {
 				// A missing ancestor is materialised as a real directory.
